@@ -176,6 +176,27 @@ def allEmpty (s : BSt) : BSt × Bool :=
 
 def counterMod (c : Cfg) (n : Nat) : Nat := n % 2 ^ c.invalidBits
 
+/-- `_cleanup_invalidated_thread_contexts` -/
+def cleanupContexts (s : BSt) : BSt :=
+  if s.invalidCnt = 0 then s else
+  let rec go : Nat → BSt → BSt
+    | 0, s => s
+    | fuel + 1, s =>
+      let rec findFirst (s : BSt) : List Nat → BSt × Option Nat
+        | [] => (s, none)
+        | i :: rest =>
+          if (s.th i).valid then findFirst s rest
+          else let r := ctxEmpty s i
+               -- F24: an unreported failure counter keeps the context (the next `checkFailures` reports it)
+               if r.2 && (!s.cfg.cleanupKeepsUnreported || (s.th i).fail == 0) then (r.1, some i) else findFirst r.1 rest
+      match findFirst s s.cache with
+      | (s1, none) => s1
+      | (s1, some i) =>
+        let s2 := { s1 with registry := s1.registry.filter (· ≠ i), cache := s1.cache.filter (· ≠ i),
+                             invalidCnt := counterMod s1.cfg (s1.invalidCnt + 2 ^ s1.cfg.invalidBits - 1) }
+        go fuel (s2.setTh i (fun t => { t with removed := true }))
+  go (s.cache.length + 1) s
+
 /-- reference count of a sink: the user's own reference plus one per live logger object holding it -/
 def sinkRefs (s : BSt) (sid : Nat) : Nat :=
   (if (s.sinkOf sid).userRef then 1 else 0) + (s.lgs.filter (fun l => !l.erased && l.sinks.contains sid)).length
@@ -278,27 +299,6 @@ def checkFailures (inj : BSt → Nat → BSt) (s : BSt) : BSt :=
              with reported := s.reported + th.fail }) 8
     else s) s
 
-/-- `_cleanup_invalidated_thread_contexts` -/
-def cleanupContexts (inj : BSt → Nat → BSt) (s : BSt) : BSt :=
-  if s.invalidCnt = 0 then s else
-  let rec go : Nat → BSt → BSt
-    | 0, s => s
-    | fuel + 1, s =>
-      let rec findFirst (s : BSt) : List Nat → BSt × Option Nat
-        | [] => (s, none)
-        | i :: rest =>
-          if (s.th i).valid then findFirst s rest
-          else let r := ctxEmpty s i; if r.2 then (r.1, some i) else findFirst r.1 rest
-      match findFirst s s.cache with
-      | (s1, none) => s1
-      | (s1, some i) =>
-        -- the counter goes away with the context: all counters are reported once more right before the removal (site 8 inside)
-        let s1 := if s1.cfg.cleanupReportsCounter then checkFailures inj s1 else s1
-        let s2 := { s1 with registry := s1.registry.filter (· ≠ i), cache := s1.cache.filter (· ≠ i),
-                             invalidCnt := counterMod s1.cfg (s1.invalidCnt + 2 ^ s1.cfg.invalidBits - 1) }
-        go fuel (s2.setTh i (fun t => { t with removed := true }))
-  go (s.cache.length + 1) s
-
 /-- `_process_lowest_timestamp_transit_event` -/
 def processLowest (inj : BSt → Nat → BSt) (s : BSt) : BSt × Bool :=
   match lowest s with
@@ -313,7 +313,7 @@ def processLowest (inj : BSt → Nat → BSt) (s : BSt) : BSt × Bool :=
       match flag with
       | some f =>
         let s3' := if s3.cfg.reportBeforeFlushCleanup then checkFailures inj s3 else s3
-        let s4 := cleanupContexts inj s3'
+        let s4 := cleanupContexts s3'
         ({ s4 with flags := f :: s4.flags, flagLog := (f, s4.log.length) :: s4.flagLog }, true)
       | none => (s3, true)
 
@@ -359,7 +359,7 @@ def poll (inj : BSt → Nat → BSt) (s : BSt) : BSt :=
     let s2 := inj s1 5
     let s3 := checkFailures inj (flushSinks s2)
     let r := allEmpty s3
-    if r.2 then cleanupLoggers (cleanupContexts inj r.1) else r.1
+    if r.2 then cleanupLoggers (cleanupContexts r.1) else r.1
 
 /-- `_exit` with `wait_for_queues_to_empty_before_exit`: the clock advances by `tick` at every sampling -/
 def exitLoop (inj : BSt → Nat → BSt) (tick : Nat) : Nat → BSt → BSt
@@ -368,7 +368,7 @@ def exitLoop (inj : BSt → Nat → BSt) (tick : Nat) : Nat → BSt → BSt
     let r := allEmpty s
     if r.2 then
       let s1 := flushSinks (checkFailures inj r.1)
-      cleanupLoggers (cleanupContexts inj s1)
+      cleanupLoggers (cleanupContexts s1)
     else
       let s0 := { r.1 with now := r.1.now + tick }
       let (s1, count) := populate inj s0
